@@ -86,4 +86,20 @@ OneGroupAt(groups, hasList, ptype, chosen) ==
 NamedGroupAdmittedAt(groups, hasList, ptype, named, chosen) ==
     \E gr \in groups : gr.idx = named /\ GroupAdmitted(gr, hasList, ptype) /\ {x.id : x \in chosen} \subseteq gr.members
 EveryMemberCoversItsBandAt(chosen) == \A x \in chosen : x.fmin <= x.bfmin /\ x.fmax >= x.bfmax
+
+(* Capability and noise of a multiband amplifier as a whole.  sels : set of [c, lib, x] - one per band: the context of    *)
+(* the band (required gain and power, design band, fibre), the single-band library with each model's NF at that gain,     *)
+(* and the model chosen for the band.  A group is capable when, in every band, it has a member covering the band that     *)
+(* is capable there.  If some admitted group is capable, every chosen band model must be; and the choice must not be      *)
+(* DOMINATED: no admitted capable group may be quieter than the chosen models in every band (which band to favour when    *)
+(* groups trade noise between bands is not decided by the property).                                                     *)
+Serving(gr, s) == {a \in s.lib : a.id \in gr.members /\ Covers(a, s.c)}
+GroupCapableAt(gr, sels, m) == \A s \in sels : \E a \in Serving(gr, s) : Capable(a, s.c, m)
+GroupDominatesAt(gr, sels, m, tnf) ==
+    \A s \in sels : \E a \in Serving(gr, s) : Capable(a, s.c, m) /\ a.nfok /\ s.x.nfok /\ a.nf + tnf < s.x.nf
+GroupCapableIfPossibleAt(groups, hasList, ptype, sels, m) ==
+    (\E gr \in groups : GroupAdmitted(gr, hasList, ptype) /\ GroupCapableAt(gr, sels, m))
+        => \A s \in sels : Capable(s.x, s.c, 0 - m)
+NotDominatedByCapableGroupAt(groups, hasList, ptype, sels, m, tnf) ==
+    ~\E gr \in groups : GroupAdmitted(gr, hasList, ptype) /\ GroupDominatesAt(gr, sels, m, tnf)
 ==============================================================================
